@@ -582,6 +582,9 @@ def c01():
     res.append(("ns-small", core.campaign("ns-small", fam_ns("C01", ["K1", "K1b", "K2"], scale(40, 400), 40, names), wd)))
     res.append(("ns-wide", core.campaign("ns-wide", fam_ns("C01", ["K3", "K4b", "K5"], scale(10, 100), 60, names, salt=1), wd)))
     res.append(("regress", core.campaign("regress", regress_programs(), wd)))
+    # directories on multi-sector clusters full of old data
+    rng9 = rng_for("C01", 19)
+    res.append(("stale-dir", core.campaign("stale-dir", [gen.stale_dir_program(rng9, "stale-dir-%d" % i, [1024, 2048, 4096][i % 3]) for i in range(scale(12, 120))], wd)))
     mc, progs = tree_programs(wd, scale(3, 4), scale(4, 5), scale(1500, 0), rng_for("C01", 9), ["K1b", "K2", "K5"])
     res.append(("mc-tree", core.campaign("mc-tree", progs, wd, n_shards=14)))
     mcb = mc_layer_b(wd)
@@ -967,7 +970,19 @@ def c07():
     bases = [("K1b", gen.K("K1b")["vol"]), ("K3", gen.K("K3")["vol"]), ("K5", gen.K("K5")["vol"])]
     specs = gen.mount_specs(rng, bases, quick=(core.tier() == "quick"))
     res = [("mounts", core.campaign("mounts", specs, wd, spec="TraceMount", mode="mounts", n_shards=14, jvms=8))]
-    core.finish("C07", LEVEL, res, None, t0,
+    # design level: the acceptance test as the code performs it (MountImpl) against Geometry!Coherent on a grid of boundary values of every field
+    deep = "TRUE" if core.tier() == "thorough" else "FALSE"
+    r = core.mc_run("MC_MountImpl", "SPECIFICATION Spec\nCONSTANT Deep = %s\nCONSTANT LegacyM = {}\nINVARIANT SoundInv\nINVARIANT ExactInv\nCHECK_DEADLOCK FALSE\n" % deep, wd, "mountimpl",
+                    workers=8, xmx="12g", timeout=7000)
+    if not r["ok"]:
+        raise core.ToolError("MC_MountImpl failed:\n" + r["out_tail"])
+    drift = [t for t in res[0][1].notes if str(t[0]).startswith("B.")]
+    mc = {"spec": "MountImpl", "states": r["states"], "distinct": r["distinct"], "bpbs_enumerated": r["distinct"], "invariants": ["Sound: ImplAccept => Coherent", "Exact: ImplAccept <=> Coherent /\\ Extra"],
+          "wall": r["wall"], "ok": True,
+          "impl_model_conformance": {"compared": res[0][1].events, "drift": len(drift), "drift_samples": [list(t) for t in drift[:3]]}}
+    if drift:
+        print("NOTE: MountImpl no longer describes the code on %d mounts (model drift, not a violation): %s" % (len(drift), drift[:2]))
+    core.finish("C07", LEVEL, res, mc, t0,
                 "mount attempts on FAT12/16/32 images with mutated boot-sector and FSInfo fields: every value of every 8-bit field, 16-bit fields strided "
                 "(quick) or exhaustively (thorough), 32-bit fields at all 2^k, 2^k+-1, thresholds and random values, random 2-4 field combinations, "
                 "truncated devices, strict and non-strict; TLC evaluates Geometry!Coherent and the derived values in exact arithmetic on every outcome",
@@ -1523,6 +1538,11 @@ def selftest(args):
         good = (not r["ok"]) and prop in r["violated"]
         ok = ok and good
         print("LfnReader Legacy=%-19s expected counterexample to %-12s %s" % (flag, prop, "ok" if good else "MISSED"))
+    for flag in ("no_rootc_check", "fat32_needs_rootn0"):
+        r = core.mc_run("MC_MountImpl", 'SPECIFICATION Spec\nCONSTANT Deep = FALSE\nCONSTANT LegacyM = {"%s"}\nINVARIANT SoundInv\nCHECK_DEADLOCK FALSE\n' % flag, wd, "mlegacy")
+        good = (not r["ok"]) and "SoundInv" in r["violated"]
+        ok = ok and good
+        print("MountImpl LegacyM=%-19s expected counterexample to Sound        %s" % (flag, "ok" if good else "MISSED"))
     for flag, prop in {"saturate": "Bounded", "bit_count": "Unique"}.items():
         r = core.mc_run("AliasGen", ALIAS_CFG % (4, 2, 2, 9, '{"%s"}' % flag, "FALSE", "NoHashes", ""), wd, "alegacy")
         good = (not r["ok"]) and prop in r["violated"]
